@@ -90,6 +90,8 @@ def lsq_inputs(K="vec", baseline="vec", W="mat", lb="nonneg", ub="finite", bs="s
         kw["K"] = arr("K", S("F"), U_K)
     elif K == "mat":
         kw["K"] = arr("K", S("Fr", "F"), U_K)
+    elif K == "scalar":
+        kw["K"] = num("K", U_K, sign="POS")         # a plain number (the functional API accepts it; the estimator stores (1,))
     else:
         kw["K"] = none()
     if baseline == "vec":
